@@ -2823,10 +2823,14 @@ func calculateReconnectDelay(attempt int) time.Duration {
 	if attempt == 0 {
 		return 0
 	}
-	// Calculate the exponential backoff using the grow factor.
-	backoffDuration := time.Duration(float64(reconnectInitialDelay.Load()) * math.Pow(reconnectGrowFactor, float64(attempt-1)))
-	// Cap the backoffDuration at maxDelay.
-	backoffDuration = min(backoffDuration, reconnectMaxDelay)
+	// Calculate the exponential backoff using the grow factor, capped at
+	// maxDelay. Compare before converting: for large attempt numbers the
+	// product exceeds the range of time.Duration.
+	backoff := float64(reconnectInitialDelay.Load()) * math.Pow(reconnectGrowFactor, float64(attempt-1))
+	backoffDuration := reconnectMaxDelay
+	if backoff < float64(reconnectMaxDelay) {
+		backoffDuration = time.Duration(backoff)
+	}
 
 	// Use a full jitter using backoffDuration
 	jitter := rand.N(backoffDuration)
